@@ -314,6 +314,9 @@ def run_misuse(ctx):
     flat = [x for pr in pairs for x in pr]
     res = run_scenarios(ctx, flat, {"C16", "PANIC"}, "misuse")
     pairs_equal(ctx, pairs, res, "misuse", label="C16", what="misuse calls inserted")
+    # advancing before synchronisation: handshakes under loss/dup/reorder with late spectators; every accepted
+    # advance_frame is checked against the endpoints' handshake states (hook accessor)
+    run_scenarios(ctx, F.fam_handshake(ctx.rng, 400 if ctx.thorough else 60, tag="hs16"), {"C16", "PANIC"}, "handshake")
 
 def run_builder(ctx):
     """The builder half of C16 (needs ctx.consts and ctx.bins: call after proof_side/build_harness)."""
